@@ -1,0 +1,19 @@
+//go:build verif
+// +build verif
+
+package auth
+
+import "time"
+
+// VerifAge moves the expiry times of the token pair that contains tok into the past by d
+// (verification builds only: lets a monitor observe expiry without waiting for hours).
+func (tm *TokenManager) VerifAge(tok string, d time.Duration) bool {
+	ti, ok := tm.tokens.Load(tok)
+	if !ok {
+		return false
+	}
+	t := ti.(*Token)
+	t.AExp -= int64(d / time.Second)
+	t.RExp -= int64(d / time.Second)
+	return true
+}
